@@ -1,6 +1,7 @@
 import Rv.Props.C07
 import Rv.Props.C09
 import Rv.Props.SrcRange
+import Rv.Props.SrcRangeParse
 #print axioms Rv.Props.C07.parse_total
 #print axioms Rv.Props.C07.parse_in_int64
 #print axioms Rv.Props.C07.slice_inside
@@ -25,3 +26,10 @@ import Rv.Props.SrcRange
 #print axioms Rv.Props.SrcRange.validateRange_eq
 #print axioms Rv.Props.SrcRange.sliceSize_eq
 #print axioms Rv.Props.SrcRange.sliceSize_total
+#print axioms Rv.Props.SrcRangeParse.loop_good
+#print axioms Rv.Props.SrcRangeParse.parseRangeNumber_eq_bytes
+#print axioms Rv.Props.SrcRangeParse.parseRangeNumber_eq
+#print axioms Rv.Props.SrcRangeParse.parseRangeHeader_eq_bytes
+#print axioms Rv.Props.SrcRangeParse.parseRangeHeader_eq
+#print axioms Rv.Props.SrcRangeParse.parseRangeHeader_total
+#print axioms Rv.Props.SrcRangeParse.parseRangeHeader_never_panics
